@@ -40,6 +40,7 @@ def required(tier):
         "shape.rule_defined_in_two_places": 100,
         "builtin.cases": 300,
         "shape.other_action_table_used_before": 100,
+        "shape.accept_all_dynamic_filter": 50,
         "reentrant.cases": 300,
         "cover.call_actions": 20,
         "cover._call_reduce_action": 20,
@@ -205,8 +206,15 @@ def run(ctx):
     cover.report(ctx)
 
 
-def build_all(text, g, spec, decoy=False):
+def accept_all(context, from_state, to_state, action, production, subresults):
+    return True
+
+
+def build_all(text, g, spec, decoy=False, filt=False):
     acts = make_actions(g, spec)
+    # a dynamic filter that accepts everything changes no result (C18) - but the drivers then
+    # run their filter code next to the action calls
+    fkw = {"dynamic_filter": accept_all} if filt else {}
 
     def gr():
         pg = pgx.grammar(text)
@@ -221,11 +229,11 @@ def build_all(text, g, spec, decoy=False):
                 pgx.glr(pg, actions=dec)
         return pg
 
-    fly = pgx.lr(gr(), actions=acts)
-    deferred = pgx.lr(gr(), actions=acts, build_tree=True)
-    glr = pgx.glr(gr(), actions=acts)
+    fly = pgx.lr(gr(), actions=acts, **fkw)
+    deferred = pgx.lr(gr(), actions=acts, build_tree=True, **fkw)
+    glr = pgx.glr(gr(), actions=acts, **fkw)
     # build the tree *and* call the actions on the way (their results are discarded): the tree must stay intact
-    deferred.during = pgx.lr(gr(), actions=acts, build_tree=True, call_actions_during_tree_build=True)
+    deferred.during = pgx.lr(gr(), actions=acts, build_tree=True, call_actions_during_tree_build=True, **fkw)
     return fly, deferred, glr
 
 
@@ -236,9 +244,12 @@ def one_grammar(ctx, g, alphabet, maxlen):
     decoy = ctx.rng.random() < 0.3
     if decoy:
         ctx.count("shape.other_action_table_used_before")
+    filt = ctx.rng.random() < 0.2
+    if filt:
+        ctx.count("shape.accept_all_dynamic_filter")
     try:
         with pgx.watchdog(20):
-            fly, deferred, glr = build_all(text, g, spec, decoy)
+            fly, deferred, glr = build_all(text, g, spec, decoy, filt)
     except Exception as e:  # noqa: BLE001
         ctx.count("construction_failed:" + type(e).__name__)
         return
@@ -255,7 +266,7 @@ def one_grammar(ctx, g, alphabet, maxlen):
         ctx.count("shape.terminal_action")
     if spec.get("split"):
         ctx.count("shape.rule_defined_in_two_places")
-    case0 = {"grammar": text, "g": g.to_json(), "spec": spec, "decoy": decoy}
+    case0 = {"grammar": text, "g": g.to_json(), "spec": spec, "decoy": decoy, "filter": filt}
     if len(alphabet) >= 3 and maxlen > 3:
         maxlen = 3
     for w in cfg.all_strings(alphabet, maxlen):
@@ -494,5 +505,5 @@ def replay(case, ctx):
     if case.get("builtin"):
         return
     g = cfg.G.from_json(case["g"])
-    fly, deferred, glr = build_all(case["grammar"], g, case["spec"], case.get("decoy", False))
+    fly, deferred, glr = build_all(case["grammar"], g, case["spec"], case.get("decoy", False), case.get("filter", False))
     check_input(ctx, g, case["spec"], fly, deferred, glr, case, case["input"])
